@@ -851,6 +851,10 @@ fn main() {
     let sh_clean = Shape { seed: 11, n1: 3, n2: 2, ndel: 1, npend: 0, pend_del: false, lex: true, vec: true, rich: true };
     let sh_pend = Shape { seed: 12, n1: 2, n2: 0, ndel: 0, npend: 2, pend_del: true, lex: true, vec: true, rich: false };
     let sh_plain = Shape { seed: 13, n1: 2, n2: 1, ndel: 0, npend: 1, pend_del: false, lex: true, vec: false, rich: true };
+    // the payload-reusing update is the LAST committed operation (n2 = 0): the newest frame owns no bytes of its own —
+    // seed C21-2 (payload end taken from the newest byte-owning frame) needs exactly this and was missed: every other
+    // shape ends with a put
+    let sh_upd_last = Shape { seed: 14, n1: 3, n2: 0, ndel: 0, npend: 0, pend_del: false, lex: true, vec: true, rich: true };
     let mut cases: Vec<Case> = Vec::new();
     // fixed corpus: the witnesses of the recorded defects first
     cases.push(Case { shape: sh_pend.clone(), faults: vec![], bits: 0 });                          // crash-left file, default options
@@ -863,7 +867,10 @@ fn main() {
     cases.push(Case { shape: sh_pend.clone(), faults: vec![Damage::TocSum(1)], bits: 16 });
     cases.push(Case { shape: sh_clean.clone(), faults: vec![Damage::Index(0, 3)], bits: 9 });       // vacuum + forced time rebuild
     cases.push(Case { shape: sh_plain.clone(), faults: vec![Damage::HdrPtr(3)], bits: 8 });         // vacuum over a chunked document + payload-reusing update
-    let shapes_quick = [sh_clean.clone(), sh_pend.clone(), sh_plain.clone()];
+    cases.push(Case { shape: sh_upd_last.clone(), faults: vec![], bits: 1 });                      // forced time-index rebuild after a payload-less update
+    cases.push(Case { shape: sh_upd_last.clone(), faults: vec![], bits: 7 });                      // all three rebuilds
+    cases.push(Case { shape: sh_upd_last.clone(), faults: vec![Damage::Index(0, 3)], bits: 0 });   // damaged index segment: doctor rebuilds on its own
+    let shapes_quick = [sh_clean.clone(), sh_pend.clone(), sh_plain.clone(), sh_upd_last.clone()];
     let n = if args.thorough { 320 } else { 10 };
     let mut shapes: Vec<Shape> = shapes_quick.to_vec();
     if args.thorough { for _ in 0..9 { shapes.push(gen_shape(&mut rng)); } }
